@@ -210,6 +210,16 @@ class ASTCFG(dict[str, WritableASTBlock]):
                             b.jump_targets[0] = it
                         if b.jump_targets[1] == name:
                             b.jump_targets[1] = it
+        # A branch whose arms were both empty ends up with the same jump target
+        # twice. It becomes a fall-through and its test is kept as an
+        # expression statement.
+        for b in self.values():
+            if len(b.jump_targets) == 2 and (
+                b.jump_targets[0] == b.jump_targets[1]
+            ):
+                b.jump_targets = b.jump_targets[:1]
+                if b.instructions and isinstance(b.instructions[-1], ast.expr):
+                    b.instructions[-1] = ast.Expr(b.instructions[-1])
         self.empty = empty
         return empty
 
